@@ -3698,6 +3698,15 @@ func (r *Resolver) processDelegation(ctx context.Context, rs *resolveState, resp
 	// than restarting the lease (GHSA-mqfw-f48p-2vc8).
 	observedAt := time.Now()
 	leaseDeadline := observedAt.Add(time.Duration(nsInfo.nsTTL) * time.Second)
+	// The delegation cache caps every lease at authority.MaxLease. Apply the
+	// same ceiling to the deadline that travels with the request tree
+	// (rs.cutDeadline / noteCut), otherwise answers cached on this direct
+	// descent keep observedAt+TTL as their cut and outlive the delegation
+	// they came from, while the same answers reached through the cached
+	// delegation are cut at its (capped) ExpiresAt.
+	if ceiling := observedAt.Add(authority.MaxLease); leaseDeadline.After(ceiling) {
+		leaseDeadline = ceiling
+	}
 
 	// DNSSEC validation for delegation
 	newParentDS, err := r.validateDelegation(ctx, rs.req, resp, q, rs.parentDS, rs.servers.Zone)
